@@ -388,14 +388,15 @@ def run(tier, seed):
                      "xeofs.single.eof:EOF._transform_algorithm", "xeofs.single.eof:EOF._inverse_transform_algorithm",
                      "xeofs.single.eof:EOF.explained_variance_ratio", "xeofs.single.eof:ComplexEOF._fit_algorithm",
                      "xeofs.data_container.data_container:DataContainer.add", "xeofs.data_container.data_container:DataContainer.set_attrs",
-                     "xeofs.single.eeof:ExtendedEOF._fit_algorithm (hand-over to the inner EOF)"]
+                     "xeofs.single.eeof:ExtendedEOF._fit_algorithm (hand-over to the inner EOF)",
+                     "xeofs.utils.hilbert_transform:_hilbert_transform_with_padding", "xeofs.utils.hilbert_transform:_pad_exp"]
     res.assumptions = ["float/complex arithmetic read as exact real/complex field arithmetic",
                        "Eckart-Young-Mirsky (optimality of the truncated SVD) is an axiom; the obligations prove that the reconstruction IS the truncated SVD",
                        "dimension names are parametric (fresh names §S/§F stand for all valid names)",
                        "termination not proved"] + [f"assumed library contract {k}: {v}" for k, v in lib.ASSUMED.items()
                                                     if k.startswith(("np.linalg.svd", "sklearn", "scipy", "dask"))] + [
         "contract of get_deterministic_sign_multiplier (entries +-1) is assumed here and checked under C15",
-        "HilbertEOF._augment_data / the delay embedding of ExtendedEOF._fit_algorithm / the Preprocessor chain: bounded only under this property (ExtendedEOF's hand-over to its inner EOF is under a forwarding contract)"]
+        "Hilbert kernel: scipy.signal.hilbert keeps its argument as real part (assumed); polyfit / polyval / exp opaque (vf/contracts/hilbertkernel.py)", "HilbertEOF._augment_data / the delay embedding of ExtendedEOF._fit_algorithm / the Preprocessor chain: bounded only under this property (ExtendedEOF's hand-over to its inner EOF is under a forwarding contract)"]
     res.trusted = ["CPython executing the traced functions on proxies", "vf/sym normaliser (AC rewriting, own code)",
                    "z3 4.x (scalar side conditions)", "assumed library contracts in vf/sym/lib.py", "xarray dot/apply_ufunc semantics as modelled by vf/sym/xda.py"]
     agg = Agg(res, "C01")
@@ -404,6 +405,9 @@ def run(tier, seed):
     # ExtendedEOF / OPA / bootstrap members are EOF analyses of derived matrices: what they hand to the inner EOF (centring, names, options)
     from props.C07 import deductive_inner_models
     deductive_inner_models(res, agg, aspects=("preprocessing",), models=("ExtendedEOF",))
+    # HilbertEOF decomposes the analytic signal of the data: its real part must be the (centred) data itself
+    from vf.contracts import hilbertkernel
+    hilbertkernel.obligations(agg)
     agg.flush()
     run_bounded(res, tier, seed)
     return res
